@@ -25,7 +25,7 @@ class SemiMarkovDecisionProcess:
     def actions(self, s: State) -> Sequence[Union[Action, Option]]:
         available_options = [o for o in self.options if o.is_initial(s)]
         if self.include_mdp_actions:
-            return self.mdp.actions(s) + available_options
+            return list(self.mdp.actions(s)) + available_options
         else:
             return available_options
         
